@@ -90,6 +90,8 @@ def load_kani_obligations():
                         o['known'] = rest.strip()
                     elif tag == 'uses':
                         o['uses'] += rest.split()
+                    elif tag == 'keep':
+                        o['keep'] = o.get('keep', []) + rest.split()
                     i += 1
                     continue
                 if l.startswith('//') or l.startswith('#['):
